@@ -79,6 +79,13 @@ def handleTabs (args : List String) : String :=
 
 def handle (cmd : String) (args : List String) : Option String :=
   if cmd == "sdftabs" then some (handleTabs args) else
+  -- hypothesis `rawNonneg` of `C14Wave.sdf_sta_window` / `sdf_path_window` / `sdf_text_sta_window` on the real SDF text
+  -- (the netlist hypotheses wfB / orderOKB / forksOKB / readsDrivenB are answered by the core command `simopscert`)
+  if cmd == "sdfwavehyp" then some (match args with
+    | [text] => match rawOfText (unpct text) with
+      | none => "noparse"
+      | some B => s!"nonneg={rawNonneg B}"
+    | _ => "bad-args") else
   if cmd != "sdfwave" then none else
   match args with
   | [mode, nlines, text, pins, ics, opsS, capsS, lanesS] =>
